@@ -283,7 +283,10 @@ func solveOne(i int, o *Obligation, cfg solveCfg) {
 				o.Status = "violated"
 				o.Weak = true
 				o.Output = "candidate counterexample found with the quantified library facts dropped"
+				// its input values are worth a replay on the real code
+				getModel(wfile, b.String(), o, cfg)
 			}
+			os.Remove(wfile)
 		}
 	}
 	if o.Status == "discharged" && os.Getenv("GOVC_KEEPALL") == "" {
